@@ -216,7 +216,19 @@ async fn evaluate(snap_dir: &Path, case: &Case, rot: usize, redo: Option<&str>) 
     let mut pr = vec![];
     let mut pr_sql = vec![];
     for sql in groups.into_iter().flatten() {
-        pr.push(db::run_stmt(&d, sql).await);
+        let mut r = db::run_stmt(&d, sql).await;
+        // (the same conflict as above: the compactor that starts after boot may be merging the table's row-sets)
+        for _ in 0..3 {
+            let conflict = sql.trim_start().to_lowercase().starts_with("delete")
+                && r["ok"] != json!(true)
+                && r["err"].as_str().map(|e| e.contains("NotFound(\"rowset\"")).unwrap_or(false);
+            if !conflict {
+                break;
+            }
+            tokio::time::sleep(Duration::from_millis(1002)).await;
+            r = db::run_stmt(&d, sql).await;
+        }
+        pr.push(r);
         pr_sql.push(sql.clone());
     }
     out.insert("probe".into(), json!(pr));
